@@ -461,10 +461,19 @@ func randomRequest(r *rand.Rand, t tableCase, profile string) reqSpec {
 	} else {
 		rq.CT = pick(r, ctPool)
 	}
+	if r.Intn(12) == 0 {
+		// a wildcard is a media RANGE: it has no meaning in a Content-Type
+		rq.CT = pick(r, []string{"*/*", "*/*; charset=utf-8", "text/plain, */*;q=0.1"})
+	}
 	if fromRoute != nil && len(fromRoute.Prod) > 0 && r.Intn(100) < 50 {
 		rq.Acc = pick(r, fromRoute.Prod)
 	} else {
 		rq.Acc = pick(r, acceptPool)
+	}
+	if fromRoute != nil && len(fromRoute.Prod) > 0 && r.Intn(10) == 0 {
+		// a media type whose NAME contains one the route produces
+		pr := pick(r, fromRoute.Prod)
+		rq.Acc = pick(r, []string{pr + "-dtd", pr + "-seq;q=0.8, text/html", "text/" + pr, "x" + pr, pr + "x, image/png"})
 	}
 	switch x := r.Intn(100); {
 	case x < 45:
@@ -483,6 +492,9 @@ func randomRequest(r *rand.Rand, t tableCase, profile string) reqSpec {
 	for k := 1; k <= 2; k++ {
 		if r.Intn(100) < 60 {
 			rq.Conds = append(rq.Conds, k)
+		} else if fromRoute != nil && len(fromRoute.Conds) > 0 && r.Intn(100) < 20 {
+			// the condition fails with a panic instead of answering false
+			rq.CPanic = append(rq.CPanic, k)
 		}
 	}
 	return rq
